@@ -21,6 +21,8 @@ def validate_records(chk, wd, trace_module, recs, label, sig_of=None):
         chk.add_tlc(f"{label}-validate", r)
         for pos in rej:
             bad = recs[pos - 1]
+            if getattr(r, "why", {}).get(pos):
+                bad = dict(bad, _why=r.why[pos])     # the specification's reason, for classification only
             sig = sig_of(bad) if sig_of else f"{bad['fn']}:record"
             chk.violation(sig, f"{bad['fn']} record not explained by the specification: {json.dumps(bad)[:300]}", {"kind": "record", "record": bad})
     chk.evaluations += total
